@@ -677,6 +677,24 @@ fn address_views() -> SimResult {
                 desc = format!("f{}.{}({ad})", k + 1, if confirm { "ExternalAddrConfirmed" } else { "ExternalAddrExpired" });
                 with_field(&a, k, |f| f.push(if confirm { ToSwarm::ExternalAddrConfirmed(ad) } else { ToSwarm::ExternalAddrExpired(ad) }));
             }
+            8 if choose(4) == 0 => {
+                // a run of announcements that fills one peer's cache (capacity 10), with an old address announced again in
+                // the middle: the re-announced one must outlive the ones announced before it
+                let p = peers[choose(peers.len())];
+                let start = choose(peer_addr_pool.len());
+                let n = 9 + choose(5);
+                let again_at = 3 + choose(n - 3);
+                for j in 0..n {
+                    let ad = peer_addr_pool[(start + j) % peer_addr_pool.len()].clone();
+                    a.swarm.borrow_mut().add_peer_address(p, ad);
+                    if j == again_at {
+                        let old = peer_addr_pool[(start + choose(3)) % peer_addr_pool.len()].clone();
+                        a.swarm.borrow_mut().add_peer_address(p, old);
+                    }
+                }
+                probe("peer_address_cache_filled_with_refresh");
+                desc = format!("add_peer_address x{n} with a re-announcement");
+            }
             8 | 9 => {
                 let p = peers[choose(peers.len())];
                 let ad = peer_addr_pool[choose(peer_addr_pool.len())].clone();
@@ -831,6 +849,8 @@ fn check_helpers(f: &mut Probe, k: usize, interesting: &mut bool) -> SimResult {
     ensure!(got_ext == r.external, "C12/external-helper", "field {}: ExternalAddresses holds {got_ext:?} (most recent first), fold of its events gives {:?}", k + 1, r.external);
     let peers: Vec<PeerId> = r.peers.keys().copied().collect();
     for p in peers {
+        // contents only: no order is documented for this helper; which addresses survive a full cache is (the least recently
+        // announced one goes)
         let mut got: Vec<String> = f.peer_addrs.get(&p).map(|x| x.to_string()).collect();
         got.sort();
         let mut exp = r.peers.get(&p).cloned().unwrap_or_default();
